@@ -204,6 +204,13 @@ class Evaluator:
             d = dotted(e)
             if d in self.externals:
                 return self.externals[d]
+            if isinstance(e.value, ast.Name) and e.value.id in self.prog.classes and e.value.id not in env:
+                # a member of an enumeration / a constant of a class of the package: one object, always the same
+                c = self.prog.classes[e.value.id]
+                if any(isinstance(n, (ast.Assign, ast.AnnAssign)) and any(
+                        isinstance(t, ast.Name) and t.id == e.attr
+                        for t in (n.targets if isinstance(n, ast.Assign) else [n.target])) for n in c.node.body):
+                    return self.externals.setdefault(d, Sentinel(d))
             base = self.expr(e.value, env, depth)
             if isinstance(base, Obj):
                 if e.attr in base.attrs:
